@@ -163,7 +163,8 @@ pub fn run_one(spec: &RunSpec, replay: Option<(Vec<u32>, Vec<u32>)>) -> RunResul
                     continue;
                 }
                 let mut sa: libc::sigaction = std::mem::zeroed();
-                sa.sa_sigaction = libc::SIG_DFL;
+                // like every Rust program: SIGPIPE ignored (set by the runtime before main)
+                sa.sa_sigaction = if s == libc::SIGPIPE { libc::SIG_IGN } else { libc::SIG_DFL };
                 libc::sigaction(s, &sa, std::ptr::null_mut());
             }
         }
